@@ -24,7 +24,9 @@ Inductive loc :=
 | LKill (clean : bool) (q : pid) (* lock(): read owner q; kill(q,0) next *)
 | LRm (clean : bool) (q : pid)   (* lock(): kill said ESRCH for q; rmlink next *)
 | Held (clean : bool)            (* lock() returned True (self.clean = clean); next step starts unlock(): readlink *)
-| URm.                           (* unlock(): link content was own pid; rmlink next *)
+| URm                            (* unlock(): link content was own pid; rmlink next *)
+| UStart.                        (* holds nothing, but its next step starts unlock() (a lock object inherited
+                                    across fork with locked = True, or plain misuse); readlink next *)
 
 Inductive ev :=
 | ESkip                          (* dead pid scheduled: nothing happens *)
@@ -91,6 +93,11 @@ Section Protocol.
         | None => (goto s p Idle, EURmGone)
         | Some _ => (mk None (upd (pc s) p Idle), EURmOk)
         end
+    | UStart =>
+        match link s with
+        | None => (goto s p Idle, EUGone)
+        | Some q => if Nat.eqb q p then (goto s p URm, EUReadOwn) else (goto s p Idle, EUNotOwner q)
+        end
     end.
 
   Definition step (s : st) (p : pid) : st := fst (stepe s p).
@@ -102,5 +109,14 @@ End Protocol.
 
 (** every process idle; the lock path absent ([None]) or a link left behind with content [q] *)
 Definition init (l0 : option pid) : st := mk l0 (fun _ => Idle).
+
+(** a start after forks: process [h] (if any) already holds the lock it acquired on a free path, and the
+    processes in [us] are forked copies whose first call is unlock() on the inherited object *)
+Definition init_fork (l0 : option pid) (held : option pid) (us : list pid) : st :=
+  mk (match held with Some h => Some h | None => l0 end)
+     (fun p => match held with
+               | Some h => if Nat.eqb p h then Held true else if existsb (Nat.eqb p) us then UStart else Idle
+               | None => if existsb (Nat.eqb p) us then UStart else Idle
+               end).
 
 Definition dead_of (ds : list pid) : pid -> bool := fun p => existsb (Nat.eqb p) ds.
